@@ -28,6 +28,8 @@ pub struct LimitWriter {
     /// Latest limit announced to the stage, by the definition of the limit source — independent of
     /// what the adapter has pulled.
     pub announced: Option<usize>,
+    /// Latest limit announced after the stage's input stream had ended (optional for the stage).
+    pub late: Option<usize>,
     pub tap: Rc<RefCell<LimTapState>>,
     pub consumer: usize,
 }
@@ -58,7 +60,7 @@ fn make_limit(
     cs: &Rc<ConsumerShared>,
     limits: &mut Limits,
 ) -> (BoxL, usize) {
-    let st = Rc::new(RefCell::new(LimTapState { pulled: None, base, last: PollRes::NotPolled, epoch: 0, is_tail, stage_ended: false }));
+    let st = Rc::new(RefCell::new(LimTapState { pulled: None, base, last: PollRes::NotPolled, epoch: 0, is_tail, input_ended: false, in_effect: Vec::new(), in_effect_epoch: u64::MAX, pulled_hist: vec![None] }));
     let (inner, src, announced): (BoxL, usize, Option<usize>) = match spec.kind {
         LimKind::EyeballSubscribe | LimKind::EyeballSubscribeReset => {
             // share an existing live eyeball source if asked to, else create one
@@ -92,7 +94,7 @@ fn make_limit(
         }
     };
     let idx = limits.writers.len();
-    limits.writers.push(LimitWriter { kind: spec.kind, src, announced, tap: st.clone(), consumer: cs.id });
+    limits.writers.push(LimitWriter { kind: spec.kind, src, announced, late: None, tap: st.clone(), consumer: cs.id });
     let tap = LimitTap { inner, st, input: input.clone(), upstream, env: env.clone(), cs: cs.clone() };
     (Box::pin(tap), idx)
 }
@@ -261,6 +263,7 @@ pub fn build_chain<I: DiffItem>(
         }
         t.feeds_sort = feeds_sort_of(chain.get(i));
         t.group = stages.iter().map(|(s, li)| (*s, li.map(|i| limits.writers[i].tap.clone()))).collect();
+        input.borrow_mut().consumer_lims = stages.iter().filter_map(|(_, li)| li.map(|i| limits.writers[i].tap.clone())).collect();
         t.record = i >= chain.len();
         let t = Rc::new(RefCell::new(t));
         taps.push(t.clone());
